@@ -124,7 +124,8 @@ def seeded(props, tier='quick'):
         if props and meta['property'] not in props:
             continue
         exp = meta.get('expect_' + tier, meta.get('expect', 'caught'))
-        rc, keys, tail = run_seeded(sid, meta['property'], tier)
+        # the property a change breaks is normally decided by that property's check; a few are decided by a neighbouring check
+        rc, keys, tail = run_seeded(sid, meta.get('caught_by_property', meta['property']), tier)
         ok = (rc == 1) if exp == 'caught' else (rc == 0)
         print('seeded %s (%s, %s): exit %d %s %s' % (sid, meta['property'], tier, rc, 'OK(' + exp + ')' if ok else 'UNEXPECTED(want ' + exp + ')', [k[:160] for k in keys[:2]]))
         if not ok:
